@@ -60,8 +60,8 @@ def judge(ctx, text, root, proc, twin_site, ninputs, rng, emit=True):
             if ev.kind == "precondition":
                 continue
             in_callee = not any(s is ev.node for _, s in irutil.all_stmts(ir)) and not _expr_in(ir, ev.node)
-            sig = {"prop": "C03", "monitor": "ir-sanitizer", "kind": ev.kind, "in_callee": in_callee, "node": type(ev.node).__name__ if ev.node is not None else None, "twin": twin_site is not None}
-            sig["diag"] = diag(ev)
+            sig = {"prop": "C03", "monitor": "ir-sanitizer", "kind": ev.kind, "in_callee": in_callee, "node": type(ev.node).__name__ if ev.node is not None else None}
+            sig["diag"] = diag(ev, ir)
             if emit:
                 ctx.violation(sig, {"text": text, "root": root, "input": spec.to_json(), "event": ev.as_dict(), "twin_site": twin_site})
             return sig
@@ -81,20 +81,38 @@ def _expr_in(ir, node):
     return False
 
 
-def diag(ev):
-    """mechanism hints from the offending node (no random values)"""
+def diag(ev, ir=None):
+    """mechanism hints from the offending node and its context (no random values)"""
     d = {}
     n = ev.node
     det = ev.detail if isinstance(ev.detail, dict) else {}
     if det.get("win"):
         d["window_formation"] = True
+        d["window_point"] = "point" in det
     txt = str(n) if n is not None else ""
     d["has_mod"] = "%" in txt
     d["has_div"] = "/" in txt
     if isinstance(n, (LoopIR.Assign, LoopIR.Reduce)):
         d["write"] = True
-    if isinstance(det.get("index"), int):
-        d["negative_index"] = det["index"] < 0
+    if ir is not None and n is not None:
+        # is the accessed name a window statement's alias?  is the read nested in an extern call?
+        wins = set()
+        for pr in walk_procs(ir).values():
+            for _, s in irutil.all_stmts(pr):
+                if isinstance(s, LoopIR.WindowStmt):
+                    wins.add(s.name)
+        nm = getattr(n, "name", None)
+        d["through_window_stmt"] = nm in wins
+        d["window_stmt_rhs"] = any(isinstance(s, LoopIR.WindowStmt) and s.rhs is n for pr in walk_procs(ir).values() for _, s in irutil.all_stmts(pr))
+        if isinstance(n, LoopIR.Read):
+            inside = False
+            for pr in walk_procs(ir).values():
+                for _, s in irutil.all_stmts(pr):
+                    for _, _, e in irutil.stmt_exprs(s):
+                        for _, sub in irutil.sub_exprs(e):
+                            if isinstance(sub, LoopIR.Extern) and any(x is n for a in sub.args for _, x in irutil.sub_exprs(a)):
+                                inside = True
+            d["inside_extern_arg"] = inside
     return d
 
 
@@ -183,7 +201,7 @@ def replay(case):
         res = Interp(budget=400000, alias_strict=True).run(ir, vals, cfg)
         evs = [e for e in res.events if e.kind != "precondition"]
         if evs:
-            return {"reproduced": True, "sig": {"prop": "C03", "monitor": "ir-sanitizer", "kind": evs[0].kind, "diag": diag(evs[0])}, "detail": f"{evs[0]!r}\ninput: {spec.brief()}\n{proc}"}
+            return {"reproduced": True, "sig": {"prop": "C03", "monitor": "ir-sanitizer", "kind": evs[0].kind, "diag": diag(evs[0], ir)}, "detail": f"{evs[0]!r}\ninput: {spec.brief()}\n{proc}"}
         return {"reproduced": False, "detail": "no event"}
     except Exception as e:
         return {"reproduced": False, "detail": f"front end rejects now: {e!r}"[:500]}
